@@ -18,10 +18,26 @@ OUT = os.environ.get("VERIF_OUT", env.VERIF)
 MAX_VIOLATION_LINES = 12
 
 
+class EnoughFound(BaseException):
+    """A shard that has recorded violations and has used up its time budget stops exploring (code
+    under test that is broken can also be pathologically slow); what it found is kept."""
+
+    def __init__(self, acc):
+        super().__init__("enough found")   # BaseException: passes the checks' own `except Exception`
+        self.acc = acc
+
+
+# seconds after which a shard that HAS recorded violations stops (never reached on a tree where
+# the property holds: no violations, or the few-second shards that meet a known finding)
+SHARD_BUDGET = {"quick": 240.0, "thorough": 3600.0}
+_BUDGET = [None]
+
+
 class Acc:
     """Per-shard accumulator (picklable)."""
 
     def __init__(self):
+        self._t0 = time.monotonic()
         self.n = collections.Counter()
         self.viol = {}          # sig -> {"sig","case","count"}
         self.samples = []
@@ -56,6 +72,9 @@ class Acc:
                 alts.append((rank, case))
                 alts.sort(key=lambda x: x[0])
                 del alts[8:]
+        if _BUDGET[0] is not None and time.monotonic() - self._t0 > _BUDGET[0]:
+            self.caps["shard_stopped_after_violations_and_time_budget"] += 1
+            raise EnoughFound(self)
 
     def merge(self, other):
         self.n.update(other.n)
@@ -88,7 +107,10 @@ def _call(args):
         from . import terms
         terms.set_warm(warm)
         fn = getattr(importlib.import_module(fn_mod), fn_name)
+        _BUDGET[0] = SHARD_BUDGET.get(tier)
         acc = fn(shard, nshards, tier, seed, *extra)
+    except EnoughFound as e:
+        acc = e.acc
     except Exception:  # noqa: BLE001
         acc = Acc()
         acc.notes.append("WORKER-CRASH " + traceback.format_exc())
